@@ -161,7 +161,7 @@ impl Property for C05 {
     fn cases(&self, tier: Tier) -> usize {
         match tier {
             Tier::Quick => 100_000,
-            Tier::Thorough => 500_000,
+            Tier::Thorough => 4_000_000,
         }
     }
     fn strategy(&self, _tier: Tier) -> BoxedStrategy<FamCase> {
